@@ -1,3 +1,60 @@
 From AB Require Import Desc Generated GeneratedWf.
+From AB Require Import Tree TreeDefs TreeProofs TreeProofs2 TreeProofs3 TreeProofs4 TreeRun TreeFacts.
+From Coq Require Import ZArith List Bool.
+Import ListNotations.
+
 Theorem C11_generated_classes_wf : forall c, In c classes -> wf_desc c = true.
 Proof. exact generated_wf_each. Qed.
+Theorem C11_classes_ok_generated : classes_ok classes.
+Proof. exact classes_ok_generated. Qed.
+Theorem C11_classes_ok_all : classes_ok all_classes.
+Proof. exact classes_ok_all. Qed.
+
+(* clone(store, transformer) of a conforming node over classes following the scheme, with a token
+   map that keeps rule and text (MappingTokenTransformer over deep-copied tokens): *)
+(* equal to the original *)
+Theorem C11_clone_equal : forall cs new f,
+  (forall t, k_rule (f t) = k_rule t /\ k_text (f t) = k_text t) -> classes_ok cs ->
+  forall a, conforms cs a = true -> node_eq cs (clone cs new f a) a = true.
+Proof. exact clone_equal. Qed.
+(* prints exactly the text the original spans *)
+Theorem C11_clone_text : forall cs new f a,
+  (forall t, k_rule (f t) = k_rule t /\ k_text (f t) = k_text t) -> conforms cs a = true ->
+  text_of (node_toks (clone cs new f a)) = text_of (node_toks a).
+Proof. exact clone_text. Qed.
+(* its leaves are exactly the images of the original's leaves, in order (no field's tokens lost) *)
+Theorem C11_clone_leaves : forall cs new, classes_ok cs -> forall f a, conforms cs a = true ->
+  leaves (clone cs new f a) = map f (leaves a).
+Proof. exact clone_leaves. Qed.
+(* complete in its own store: every leaf of the copy is the image of a leaf of the original *)
+Theorem C11_clone_complete : forall cs new f a, classes_ok cs -> conforms cs a = true ->
+  forall x, In x (leaves (clone cs new f a)) <-> exists t, In t (leaves a) /\ x = f t.
+Proof. exact clone_complete. Qed.
+(* shares no token with the original when the map sends leaves to fresh identities *)
+Theorem C11_clone_disjoint : forall cs new f a, classes_ok cs -> conforms cs a = true ->
+  (forall t t', In t (leaves a) -> In t' (leaves a) -> k_id (f t) <> k_id t') ->
+  forall x y, In x (leaves (clone cs new f a)) -> In y (leaves a) -> k_id x <> k_id y.
+Proof. exact clone_disjoint. Qed.
+(* every tree node of the copy (incl. Repeated) lives in the new store *)
+Theorem C11_clone_sids : forall cs new f a, conforms cs a = true ->
+  forall s, In s (sids (clone cs new f a)) -> s = new.
+Proof. exact clone_sids. Qed.
+(* the copy is itself a conforming tree (every declared field present, of the declared kind), so
+   all of the above and C05's first/last-token theorem apply to it again *)
+Theorem C11_clone_conforms : forall cs new f, classes_ok cs ->
+  forall a, conforms cs a = true -> conforms cs (clone cs new f a) = true.
+Proof. exact clone_conforms. Qed.
+(* its first/last token are the images of leaves of the original *)
+Theorem C11_clone_border : forall cs new f, classes_ok cs -> classes_anchored cs ->
+  forall n fuel sd, (depth (clone cs new f n) < fuel)%nat -> conforms cs n = true ->
+  exists t, border cs fuel sd (clone cs new f n) = Some (f t) /\ In t (leaves n).
+Proof. exact clone_border_total. Qed.
+
+Example C11_clone_hyps :
+  (forall t, k_rule (ex_fresh t) = k_rule t /\ k_text (ex_fresh t) = k_text t)
+  /\ conforms classes ex_open = true /\ conforms all_classes ex_open_num = true
+  /\ forallb (fun t => forallb (fun t' => negb (k_id (ex_fresh t) =? k_id t')%Z) (leaves ex_open_num))
+             (leaves ex_open_num) = true
+  /\ length (leaves ex_open_num) = 16%nat
+  /\ node_eq all_classes (clone all_classes 9 ex_fresh ex_open_num) ex_open_num = true.
+Proof. split; [exact ex_fresh_keeps | vm_compute; auto]. Qed.
